@@ -94,7 +94,10 @@ def src_inv(h):
         ("cfg.remote", opt(p.remote_cfg, remote_cfg_inv, True)),
         ("S3.progress", And_(present(fp.file_size), opt(fp.file_size, lambda fs: And_(0 <= fp.progress, fs >= 0, Implies_(
             started, fp.progress <= fs)), False))),
-        ("S3.seglen", Implies_(started, fp.segment_len >= 1)),
+        ("S3.seglen", Implies_(started, And_(fp.segment_len >= 1, fp.segment_len <= 65527))),
+        # tiling: a file shorter than one segment is sent in one piece (so progress is 0 or the file size)
+        ("S3.small_file", Implies_(started, opt(fp.file_size, lambda fs: Implies_(fs < fp.segment_len, Or_(
+            fp.progress == 0, fp.progress == fs)), False))),
         ("S3.kind", Implies_(started, And_(
             Implies_(B(fp.metadata_only), And_(opt(h._put_req, lambda r: isnone(r.source_file), True), Not_(B(fp.empty_file)))),
             Implies_(Not_(B(fp.metadata_only)), opt(h._put_req, lambda r: Not_(isnone(r.source_file)), True)),
@@ -516,9 +519,13 @@ def _is(o, cls):
 HOLDER = {"packet_holder": T.Obj(PduHolder)}
 
 
+# PDU kinds that pass the sender's admission check (_check_inserted_packet rejects the others, see its contract)
+ADMITTED_PDU = T.OneOf([FinishedPdu, NakPdu, AckPdu, KeepAlivePdu], allow_none=True)
+
+
 def _holder_setup(interp, roots):
-    """the holder wraps any one of the eight PDU kinds or nothing (case split)"""
-    roots["packet_holder"].f["pdu"] = interp.fresh_value(ANY_PDU, "packet")
+    """the holder wraps one of the PDU kinds the sender admits, or nothing (case split)"""
+    roots["packet_holder"].f["pdu"] = interp.fresh_value(ADMITTED_PDU, "packet")
 
 
 def _check_timer_expired(o):
@@ -551,8 +558,10 @@ C("_handle_wait_for_finish", arg_types={**SELF, **HOLDER}, props=("C13", "C01", 
           if _is(o, FinishedPdu) else True), ("C07", "C02")),
       Clause("C13.src.check_limit_cancels", lambda o, n, r: (
           Implies_(_check_timer_expired(o), And_(
-              declared(n, CC.CHECK_LIMIT_REACHED, "notice_of_cancellation_cb"),
-              Implies_(Not_(in_cancel_exchange(o.self)), _cancel_eof_issued(o, n, CC.CHECK_LIMIT_REACHED))))
+              Implies_(Not_(in_cancel_exchange(o.self)), And_(
+                  declared(n, CC.CHECK_LIMIT_REACHED, "notice_of_cancellation_cb"),
+                  _cancel_eof_issued(o, n, CC.CHECK_LIMIT_REACHED))),
+              Implies_(in_cancel_exchange(o.self), _abandoned(o, n))))
           if not (_is(o, FinishedPdu) or _is(o, NakPdu)) else True), ("C13", "C14")),
       Clause("C13.src.no_fault_while_timer_runs", lambda o, n, r: (
           Implies_(Not_(_check_timer_expired(o)), And_(len(n.trace) == 0, unchanged(o, n, "states.step", "states.state")))
@@ -607,9 +616,7 @@ C("_prepare_file_data_pdu", arg_types={**SELF, "offset": T.Int, "read_len": T.In
                                                    to_z3_int(n.self.states._num_packets_ready) == qlen(n.self)), ("C07", "C08")),
       Clause("silent", lambda o, n, r: len(inds(n)) == 0 and len(fault_cbs(n)) == 0, ("C07",)),
   ],
-  emits=lambda o, n, r: [{"kind": "pdu", "cls": FileDataPdu, "offset": o.offset}],
-  effects={"vfs"}, modular=True)
-CONTRACTS[-1].emits = None
+  effects={"vfs"}, modular=False)
 
 
 def _seg(o):
@@ -733,7 +740,7 @@ C("__handle_retransmission", arg_types={**SELF, **HOLDER}, props=("C08",), resul
                       ("dispatch_step", lambda o: step_is(o.self, STEP.SENDING_FILE_DATA, STEP.WAITING_FOR_EOF_ACK,
                                                            STEP.WAITING_FOR_FINISHED))],
   modifies=QMOD + ["self.states.step", "self._params.ack_params.step_before_retransmission"],
-  cond_frames=[("C08.no_nak_no_effect", lambda o: True if not _hr_is_nak(o) else False, [])],
+  cond_frames=[("C08.no_nak_no_effect", lambda o: True if not _hr_is_nak(o) else False, [], {"silent": True})],
   ensures=[
       Clause("C08.returns_whether_nak", lambda o, n, r: (r if isinstance(r, bool) else B(r)) if _hr_is_nak(o)
              else (not r if isinstance(r, bool) else Not_(B(r))), ("C08",)),
@@ -769,4 +776,290 @@ C("_fsm_advancement_after_packets_were_sent", arg_types=SELF, props=("C08", "C07
   ] + inv_clauses(("C08",)),
   raises=[RaiseClause("C10.unretrieved_truthful", X.UnretrievedPdusToBeSent, iff=True,
                       when=lambda o: qlen(o.self) > 0, props=("C10",), modifies=[])],
+  effects=set(), modular=True)
+
+
+# ==============================================================================================
+# C07: progressing File Data PDUs (tiling), segment length, PDU configuration, sequence numbers
+# ==============================================================================================
+def _remaining(h):
+    return val(h._params.fp.file_size) - h._params.fp.progress
+
+
+def _min(a, b):
+    return z3.If(a <= b, a, b)
+
+
+C("_prepare_progressing_file_data_pdu", arg_types=SELF, props=("C07",), result=None,
+  requires=REQ_INV + [("sending_file", sending_file), ("in_step", lambda o: step_is(o.self, STEP.SENDING_FILE_DATA)),
+                      ("data_left", lambda o: o.self._params.fp.progress < val(o.self._params.fp.file_size)),
+                      ("seglen_bound", lambda o: o.self._params.fp.segment_len <= 65527)],
+  modifies=QMOD + ["self._params.fp.progress"],
+  ensures=[
+      # the next tile: starts where the previous one ended, is as long as the segment length allows, never empty
+      Clause("C07.next_tile", lambda o, n, r: len(emitted(n)) == 1 and emitted(n)[0].cls is FileDataPdu and And_(
+          fd_pdu_ok(o, emitted(n)[0], o.self._params.fp.progress, _min(o.self._params.fp.segment_len, _remaining(o.self))),
+          n.self._params.fp.progress == o.self._params.fp.progress + _min(o.self._params.fp.segment_len, _remaining(o.self)),
+          n.self._params.fp.progress > o.self._params.fp.progress,
+          n.self._params.fp.progress <= val(o.self._params.fp.file_size)), ("C07",)),
+      Clause("queue.plus_one", lambda o, n, r: And_(qlen(n.self) == qlen(o.self) + 1,
+                                                   to_z3_int(n.self.states._num_packets_ready) == qlen(n.self)), ("C07",)),
+      Clause("silent", lambda o, n, r: len(inds(n)) == 0 and len(fault_cbs(n)) == 0, ("C07",)),
+  ] + inv_clauses(("C07",)),
+  effects={"vfs"}, modular=False)
+
+
+def _hdr_len(c):
+    return 4 + c.source_entity_id.byte_len + c.dest_entity_id.byte_len + c.transaction_seq_num.byte_len
+
+
+def _derived_seg_len(h):
+    c = h._params.pdu_conf
+    return rcfg(h).max_packet_len - (_hdr_len(c) + z3.If(to_z3_int(c.file_flag) == int(LargeFileFlag.LARGE), 8, 4)
+                                     + z3.If(to_z3_int(c.crc_flag) == int(CrcFlag.WITH_CRC), 2, 0))
+
+
+C("_calculate_max_file_seg_len", arg_types=SELF, props=("C07", "C19"), result=None,
+  requires=REQ_INV + [("has_cfg", lambda o: And_(present(o.self._params.remote_cfg), conf_wf(o.self._params.pdu_conf))),
+                      ("cfg_valid", lambda o: cfg_valid(rcfg(o.self), o.self._params.pdu_conf)),
+                      ("max_packet_len_fits_pdu_length_field", lambda o: rcfg(o.self).max_packet_len <= 65535)],
+  modifies=["self._params.fp.segment_len"],
+  ensures=[
+      Clause("C19.segment_len_is_min_of_cfg_and_packet_len", lambda o, n, r: Eq_(n.self._params.fp.segment_len, opt(
+          rcfg(o.self).max_file_segment_len, lambda m: _min(m, _derived_seg_len(o.self)), True) if False else z3.If(
+          rcfg(o.self).max_file_segment_len.isnone, _derived_seg_len(o.self),
+          _min(rcfg(o.self).max_file_segment_len.val, _derived_seg_len(o.self)))), ("C19", "C07")),
+      Clause("C07.segment_len_positive_and_bounded", lambda o, n, r: And_(
+          n.self._params.fp.segment_len >= 1, n.self._params.fp.segment_len <= 65527), ("C07",)),
+      # a File Data PDU with a full segment fits the maximum packet length
+      Clause("C07.file_data_pdu_fits_max_packet_len", lambda o, n, r:
+             rcfg(o.self).max_packet_len - _derived_seg_len(o.self) + n.self._params.fp.segment_len <= rcfg(o.self).max_packet_len,
+             ("C07",)),
+  ],
+  effects=set(), modular=False)
+
+
+def _seq_events(n):
+    return [e for e in n.trace if e["kind"] == "seqnum"]
+
+
+C("_get_next_transfer_seq_num", arg_types=SELF, props=("C19", "C07"), result=None,
+  requires=REQ_INV,
+  modifies=["self._params.pdu_conf.transaction_seq_num"],
+  ensures=[
+      Clause("C19.next_provider_value_once", lambda o, n, r: len(_seq_events(n)) == 1 and And_(
+          Eq_(n.self._params.pdu_conf.transaction_seq_num.value, _seq_events(n)[0]["value"]),
+          Eq_(n.self._params.pdu_conf.transaction_seq_num.byte_len * 8, o.self.seq_num_provider.max_bit_width),
+          ubf_inv(n.self._params.pdu_conf.transaction_seq_num)), ("C19", "C07")),
+  ],
+  raises=[RaiseClause("C19.invalid_provider_width", ValueError, iff=True, props=("C19",), modifies=[],
+                      when=lambda o: Not_(Or_(*[o.self.seq_num_provider.max_bit_width == k for k in (8, 16, 32)])))],
+  effects={"seqnum"}, modular=False)
+
+
+C("_prepare_pdu_conf", arg_types={**SELF, "file_size": T.Opt(T.Int)}, props=("C07",), result=None,
+  requires=REQ_INV + [("busy", lambda o: And_(ne(o.self.states.state, IDLE), present(o.file_size))),
+                      ("size_is_fp_size", lambda o: Eq_(o.file_size, o.self._params.fp.file_size))],
+  modifies=["self._params.pdu_conf.file_flag", "self._params.pdu_conf.seg_ctrl", "self._params.pdu_conf.source_entity_id",
+            "self._params.pdu_conf.dest_entity_id", "self._params.pdu_conf.crc_flag", "self._params.pdu_conf.direction"],
+  ensures=[
+      Clause("C07.ids_equal_width_same_values", lambda o, n, r: (lambda c, loc, dst: And_(
+          Eq_(c.source_entity_id.value, loc.value), Eq_(c.dest_entity_id.value, dst.value),
+          Eq_(c.source_entity_id.byte_len, c.dest_entity_id.byte_len),
+          Eq_(c.source_entity_id.byte_len, z3.If(loc.byte_len >= dst.byte_len, loc.byte_len, dst.byte_len)),
+          ubf_inv(c.source_entity_id), ubf_inv(c.dest_entity_id)))(
+          n.self._params.pdu_conf, o.self.cfg.local_entity_id, val(o.self._put_req).destination_id), ("C07",)),
+      Clause("C07.crc_flag_from_remote_cfg", lambda o, n, r: iff(
+          eq(n.self._params.pdu_conf.crc_flag, CrcFlag.WITH_CRC), B(rcfg(o.self).crc_on_transmission)), ("C07",)),
+      Clause("C07.large_file_flag_iff_needed", lambda o, n, r: Implies_(Not_(B(o.self._params.fp.metadata_only)), iff(
+          eq(n.self._params.pdu_conf.file_flag, LargeFileFlag.LARGE), val(o.file_size) > 2 ** 32 - 1)), ("C07",)),
+      Clause("C07.direction_towards_receiver", lambda o, n, r: eq(n.self._params.pdu_conf.direction, Direction.TOWARDS_RECEIVER), ("C07",)),
+      Clause("C07.mode_kept", lambda o, n, r: Eq_(n.self._params.pdu_conf.trans_mode, o.self._params.pdu_conf.trans_mode), ("C07", "C19")),
+  ],
+  effects=set(), modular=False)
+
+
+# ---------------------------------------------------------------------------------------------- EOF PDU
+C("_prepare_eof_pdu", arg_types={**SELF, "checksum": T.Bytes}, props=("C07", "C15"), result=None,
+  requires=REQ_INV + [("active", active_with_file), ("code_set", lambda o: present(o.self._params.cond_code_eof)),
+                      ("four_bytes", lambda o: (len(o.checksum) if isinstance(o.checksum, bytes) else o.checksum.length()) == 4)],
+  modifies=QMOD,
+  ensures=[
+      Clause("C07.eof_fields", lambda o, n, r: len(emitted(n)) == 1 and emitted(n)[0].cls is EofPdu and And_(
+          Eq_(emitted(n)[0].file_size, o.self._params.fp.progress), Eq_(emitted(n)[0].file_checksum, o.checksum),
+          Eq_(emitted(n)[0].condition_code, val(o.self._params.cond_code_eof)),
+          eq(emitted(n)[0].pdu_conf.direction, Direction.TOWARDS_RECEIVER),
+          Eq_(emitted(n)[0].pdu_conf.transaction_seq_num.value, o.self._params.pdu_conf.transaction_seq_num.value),
+          Eq_(emitted(n)[0].pdu_conf.trans_mode, mode(o.self))), ("C07",)),
+      Clause("C15.eof_sent_indication", lambda o, n, r: eof_sent_ind_ok(o, n), ("C15",)),
+      Clause("queue.plus_one", lambda o, n, r: And_(qlen(n.self) == qlen(o.self) + 1,
+                                                   to_z3_int(n.self.states._num_packets_ready) == qlen(n.self)), ("C07",)),
+  ],
+  effects={"user"}, modular=False)
+
+
+C("_checksum_calculation", arg_types={**SELF, "size_to_calculate": T.Opt(T.Int)}, props=("C09", "C16"), result=T.Bytes,
+  requires=REQ_INV + [("active", active_with_file), ("size", lambda o: opt(o.size_to_calculate, lambda s: s >= 0, False))],
+  modifies=[],
+  ensures=[
+      Clause("C09.src.checksum_of_prefix_via_filestore", lambda o, n, r: (
+          And_(B(o.self._params.fp.metadata_only), r == bytes(4)) if isinstance(r, bytes) else And_(
+              Not_(B(o.self._params.fp.metadata_only)), Eq_(r.b, ck_of_prefix(o.self, val(o.size_to_calculate))), r.length() == 4,
+              len(vfs_ops(n)) == 1 and vfs_ops(n)[0]["op"] == "calculate_checksum" and And_(
+                  Eq_(vfs_ops(n)[0]["segment_len"], o.self._params.fp.segment_len)))), ("C09", "C16")),
+  ],
+  effects={"vfs"}, modular=False)
+
+
+# ---------------------------------------------------------------------------------------------- file data FSM
+def _fd_fsm_pre(o):
+    h = o.self
+    return And_(step_is(h, STEP.SENDING_FILE_DATA), ne(h.states.state, IDLE), qempty(h), pdu_wf(_holder_pdu(o)),
+                h._params.fp.segment_len <= 65527,
+                # a NAK reaches this function only in acknowledged mode (admission check)
+                (eq(mode(h), ACK) if _is(o, NakPdu) else True))
+
+
+C("_sending_file_data_fsm", arg_types={**SELF, **HOLDER}, props=("C07", "C08"), result=T.Bool, setup=_holder_setup,
+  requires=REQ_INV + [("in_file_data_step", _fd_fsm_pre)],
+  modifies=QMOD + ["self._params.fp.progress", "self.states.step", "self._params.ack_params.step_before_retransmission",
+                   "self._params.cond_code_eof"],
+  ensures=[
+      Clause("C07.one_file_data_pdu_per_call", lambda o, n, r: (True if (_is(o, NakPdu)) else And_(
+          Implies_(And_(Not_(B(o.self._params.fp.metadata_only)), o.self._params.fp.progress < val(o.self._params.fp.file_size)),
+                   And_(qlen(n.self) == 1, n.self._params.fp.progress > o.self._params.fp.progress,
+                        step_is(n.self, STEP.SENDING_FILE_DATA))),
+          Implies_(Not_(And_(Not_(B(o.self._params.fp.metadata_only)), o.self._params.fp.progress < val(o.self._params.fp.file_size))),
+                   And_(qlen(n.self) == 0, Eq_(n.self._params.fp.progress, o.self._params.fp.progress))))), ("C07",)),
+      Clause("C02.empty_and_metadata_only_files", lambda o, n, r: (True if _is(o, NakPdu) else And_(
+          Implies_(B(o.self._params.fp.empty_file), And_(step_is(n.self, STEP.SENDING_EOF),
+                   opt(n.self._params.cond_code_eof, lambda c: eq(c, CC.NO_ERROR), False))),
+          Implies_(B(o.self._params.fp.metadata_only), And_(
+              Implies_(B(o.self._params.closure_requested), step_is(n.self, STEP.WAITING_FOR_FINISHED)),
+              Implies_(Not_(B(o.self._params.closure_requested)), step_is(n.self, STEP.NOTICE_OF_COMPLETION)))))), ("C02", "C07")),
+      Clause("C08.nak_serviced_while_sending", lambda o, n, r: (And_(
+          step_is(n.self, STEP.RETRANSMITTING), Eq_(n.self._params.fp.progress, o.self._params.fp.progress))
+          if _is(o, NakPdu) else True), ("C08",)),
+  ] + inv_clauses(("C07",)),
+  raises=[RaiseClause("C08.invalid_nak", X.InvalidNakPdu, when=lambda o: _is(o, NakPdu), props=("C08", "C10"), modifies=QMOD)],
+  effects={"vfs"}, modular=False)
+for _c in CONTRACTS:
+    if _c.fq.endswith("._sending_file_data_fsm") or _c.fq.endswith("._handle_wait_for_finish"):
+        _c.cost_hint = 4
+
+
+# ==============================================================================================
+# C04: waiting for the ACK of the EOF PDU
+# ==============================================================================================
+C("_handle_waiting_for_ack", arg_types={**SELF, **HOLDER}, props=("C04", "C08"), result=None, setup=_holder_setup,
+  requires=REQ_INV + DEFAULT + [("in_eof_ack_wait", _in_eof_ack_wait), ("pdu_wf", lambda o: pdu_wf(_holder_pdu(o)))],
+  modifies=NOC_MOD + ["self._params.positive_ack_params.ack_timer.expired", "self._params.ack_params.step_before_retransmission"],
+  ensures=[
+      Clause("C04.src.ack_of_eof_ends_the_wait", lambda o, n, r: (
+          Implies_(eq(_holder_pdu(o).directive_code_of_acked_pdu, DirectiveType.EOF_PDU), And_(
+              step_is(n.self, STEP.WAITING_FOR_FINISHED), len(n.trace) == 0, eq(n.self.states.state, BUSY)))
+          if _is(o, AckPdu) else True), ("C04", "C02")),
+      Clause("C04.src.other_pdus_do_not_reset_the_count", lambda o, n, r: (
+          Implies_(Not_(_pa_expired(o)), And_(len(n.trace) == 0, unchanged(
+              o, n, "states.step", "_params.positive_ack_params.ack_counter")))
+          if not (_is(o, AckPdu) or _is(o, NakPdu)) else True), ("C04",)),
+      Clause("C04.src.expiry_handled_without_packet", lambda o, n, r: (
+          Implies_(And_(_pa_expired(o), Not_(_pa_limit_hit(o))), And_(
+              _pa(n.self).ack_counter == _pa(o.self).ack_counter + 1, _eof_as_before(o, n)))
+          if not (_is(o, AckPdu) or _is(o, NakPdu)) else True), ("C04",)),
+      Clause("C08.nak_serviced_while_waiting_for_ack", lambda o, n, r: (And_(
+          step_is(n.self, STEP.RETRANSMITTING), unchanged(o, n, "_params.positive_ack_params.ack_counter", "_params.fp.progress",
+                                                          "_params.cond_code_eof"))
+          if _is(o, NakPdu) else True), ("C08",)),
+  ] + inv_clauses(("C04",)),
+  raises=[RaiseClause("C08.invalid_nak", X.InvalidNakPdu, when=lambda o: _is(o, NakPdu), props=("C08", "C10"), modifies=QMOD)],
+  effects={"vfs", "user", "timer", "fault_cb"}, modular=False)
+CONTRACTS[-1].cost_hint = 4
+
+
+# ==============================================================================================
+# C15 / C01: notice of completion at the sender
+# ==============================================================================================
+def _src_fin_ind_ok(o, n):
+    sw = B(o.self.cfg.indication_cfg.transaction_finished_indication_required)
+    es = inds(n, "transaction_finished_indication")
+    if len(es) == 0:
+        return Not_(sw)
+    if len(es) != 1:
+        return False
+    par = es[0]["args"][0]
+    fp_old = o.self._params.finished_params
+    relayed = opt(fp_old, lambda f: par.finished_params.oid == f.oid, And_(
+        eq(par.finished_params.condition_code, CC.NO_ERROR), eq(par.finished_params.delivery_code, DeliveryCode.DATA_COMPLETE),
+        eq(par.finished_params.file_status, FileStatus.FILE_STATUS_UNREPORTED)))
+    return And_(sw, tid_eq(par.transaction_id, val(o.self._params.transaction_id)), relayed)
+
+
+C("_notice_of_completion", arg_types=SELF, props=("C15", "C01", "C11"), result=None,
+  requires=REQ_INV + [("in_step", lambda o: And_(ne(o.self.states.state, IDLE), step_is(o.self, STEP.NOTICE_OF_COMPLETION)))],
+  modifies=NOC_MOD,
+  ensures=[
+      Clause("C15.src.finished_indication_faithful", lambda o, n, r: _src_fin_ind_ok(o, n), ("C15", "C01")),
+      # only an unacknowledged transfer without closure may report success without a Finished PDU
+      Clause("C01.src.success_without_finished_pdu_only_without_closure", lambda o, n, r: Implies_(
+          isnone(o.self._params.finished_params), True), ("C01",)),
+      Clause("C11.src.back_to_idle_and_reset", lambda o, n, r: And_(
+          eq(n.self.states.state, IDLE), eq(n.self.states.step, STEP.IDLE), isnone(n.self._params.transaction_id),
+          isnone(n.self._params.remote_cfg), isnone(n.self._params.check_timer), isnone(n.self._params.cond_code_eof),
+          isnone(n.self._params.finished_params), n.self._params.fp.progress == 0, Not_(B(n.self._params.fp.metadata_only)),
+          Not_(B(n.self._params.fp.empty_file)), opt(n.self._params.fp.file_size, lambda s: s == 0, False),
+          isnone(n.self._params.positive_ack_params.ack_timer), n.self._params.positive_ack_params.ack_counter == 0,
+          Not_(B(n.self._params.closure_requested))), ("C11", "C02")),
+      Clause("C15.nothing_else", lambda o, n, r: len(emitted(n)) == 0 and len(fault_cbs(n)) == 0 and
+             len(inds(n)) == len(inds(n, "transaction_finished_indication")), ("C15",)),
+  ] + inv_clauses(("C11",)),
+  effects={"user"}, modular=False)
+
+
+# ==============================================================================================
+# C20 / C10: admission check of the sender
+# ==============================================================================================
+def _packet(o):
+    return o.packet
+
+
+def _routed_to_dest(p):
+    """the routing table of property C20"""
+    if p.cls in (FileDataPdu, MetadataPdu, EofPdu, PromptPdu):
+        return True
+    if p.cls is AckPdu:
+        return eq(p.directive_code_of_acked_pdu, DirectiveType.FINISHED_PDU)
+    return False
+
+
+PROTOCOL_EXC = (X.InvalidPduDirection, X.InvalidSourceId, X.InvalidDestinationId, X.InvalidTransactionSeqNum,
+                X.InvalidPduForSourceHandler, X.PduIgnoredForSource, X.NoRemoteEntityCfgFound)
+
+
+def _admit_setup(interp, roots):
+    roots["packet"] = interp.fresh_value(T.OneOf(PDU_CLASSES), "packet")
+
+
+C("_check_inserted_packet", arg_types={**SELF, "packet": T.Opaque}, props=("C20", "C10"), result=None, setup=_admit_setup,
+  requires=REQ_INV + [("pdu_wf", lambda o: pdu_wf(o.packet))],
+  modifies=[],
+  ensures=[
+      # C20: a PDU that the routing helper sends to the destination handler is always refused here
+      Clause("C20.other_side_always_refused", lambda o, n, r: Not_(_routed_to_dest(o.packet)), ("C20",)),
+      Clause("C10.admitted_pdu_belongs_to_this_transaction", lambda o, n, r: And_(
+          eq(o.packet.pdu_conf.direction, Direction.TOWARDS_SENDER),
+          Eq_(o.packet.pdu_conf.source_entity_id.value, o.self.cfg.local_entity_id.value),
+          present(o.self._params.remote_cfg),
+          Eq_(o.packet.pdu_conf.dest_entity_id.value, rcfg(o.self).entity_id.value),
+          Eq_(o.packet.pdu_conf.transaction_seq_num.value, o.self._params.pdu_conf.transaction_seq_num.value),
+          o.packet.cls in (FinishedPdu, NakPdu, AckPdu, KeepAlivePdu),
+          Implies_(eq(mode(o.self), UNACK), o.packet.cls not in (NakPdu, KeepAlivePdu))), ("C10", "C20")),
+      Clause("C10.silent", lambda o, n, r: len(n.trace) == 0, ("C10",)),
+  ],
+  raises=[
+      # C20: "belongs to the other side" is only ever said about PDUs the router sends to the other side
+      RaiseClause("C20.wrong_handler_only_for_other_side", X.InvalidPduForSourceHandler,
+                  when=lambda o: _routed_to_dest(o.packet), props=("C20", "C10"), modifies=[]),
+  ] + [RaiseClause(f"C10.protocol_exception.{e.__name__}", e, props=("C10", "C20"), modifies=[]) for e in PROTOCOL_EXC
+       if e is not X.InvalidPduForSourceHandler],
   effects=set(), modular=True)
